@@ -245,6 +245,12 @@ Proof.
   intros H. now rewrite IH.
 Qed.
 
+Lemma aset_same_val {V} k (v : V) m : aget k m = Some v -> aset k v m = m.
+Proof.
+  induction m as [|[a w] m IH]; cbn; [discriminate|]. destruct (str_eqb a k) eqn:E.
+  - intros H. inversion H. reflexivity.
+  - intros H. now rewrite IH.
+Qed.
 Lemma has_false_cons c x s : has c (x :: s) = false -> byte_eqb c x = false /\ has c s = false.
 Proof. rewrite has_cons. apply orb_false_iff. Qed.
 Lemma break_at_app c k v : has c k = false -> break_at c (k ++ c :: v) = (k, v).
@@ -361,17 +367,6 @@ Proof. unfold fts_frame. intros (?&?&?&?&?&?&?&?&?) (?&?&?&?&?&?&?&?&?). repeat 
 Lemma fts_frame_set s m k2 : fts_frame s (set_ft s (fts s) (fttype s) m k2 (locs s)).
 Proof. repeat split. Qed.
 
-Definition apply_qual (m : list (str * qv)) (q : qual) : list (str * qv) :=
-  match q with
-  | QText k cs => aset k (QS (concat cs)) m
-  | QNum k dg => aset k (QI (dval dg)) m
-  | QRaw k v => aset k (QS v) m
-  | QFlag k => match aget k_misc m with
-               | None => aset k_misc (QL [k]) m
-               | Some (QL xs) => aset k_misc (QL (xs ++ [k])) m
-               | Some _ => m
-               end
-  end.
 Definition misc_ok (m : list (str * qv)) : Prop :=
   match aget k_misc m with Some (QS _) | Some (QI _) => False | _ => True end.
 
@@ -740,7 +735,7 @@ Proof.
 Qed.
 
 Definition feat0 (f : afeat) : feat :=
-  mkfeat (akey f) (sort_locs (sem (aloc f))) (view_quals (aquals f) (flag_names (aquals f)) false) None.
+  mkfeat (akey f) (sort_locs (sem (aloc f))) (quals_dict (aquals f)) None.
 Definition pend_view (s : st) (F : list feat) : Prop :=
   exists s1, flush s = ROk s1 /\ fts s1 = F /\ fttype s1 = None /\ hframe s s1.
 
@@ -753,14 +748,15 @@ Section feature_lines.
   Variable excl : list str.
   Hypothesis Hex : mem k_fts excl = false.
 
-  Lemma feature_lines f s F : mode s = PFts -> pend_view s F -> wf_afeat f = true ->
-    Forall okline (render_feat f) /\ exists s2, steps_any excl s (render_feat f) = ROk s2 /\ mode s2 = PFts /\ hframe s s2
-      /\ pend_view s2 (F ++ [feat0 f]).
+  (* key line, location lines and qualifier lines of one feature: the feature is pending afterwards (not yet built) *)
+  Lemma feature_pre f s s1 : mode s = PFts -> flush s = ROk s1 -> fttype s1 = None -> hframe s s1 -> wf_afeat_pre f = true ->
+    Forall okline (render_feat f) /\ exists sc, steps_any excl s (render_feat f) = ROk sc /\ mode sc = PFts /\ hframe s sc
+      /\ fts sc = fts s1 /\ fttype sc = Some (akey f) /\ locs sc = Some (print (aloc f))
+      /\ ftmeta sc = Some (quals_dict (aquals f)).
   Proof.
-    intros Hmo (s1 & Hfl & HF & Hty & Hfr) W. unfold wf_afeat in W.
-    apply andb_prop in W. destruct W as [W Wdist]. apply andb_prop in W. destruct W as [W Wq].
-    apply andb_prop in W. destruct W as [W Wone]. apply andb_prop in W. destruct W as [W We].
-    apply andb_prop in W. destruct W as [W Wor]. apply andb_prop in W. destruct W as [W Wlen].
+    intros Hmo Hfl Hty Hfr W. unfold wf_afeat_pre in W.
+    apply andb_prop in W. destruct W as [W Wq].
+    apply andb_prop in W. destruct W as [W We]. apply andb_prop in W. destruct W as [W Wor]. apply andb_prop in W. destruct W as [W Wlen].
     apply andb_prop in W. destruct W as [Wne Wch].
     apply nonempty_ne in Wne. apply Nat.leb_le in Wlen. apply negb_true_iff in Wor.
     pose proof (keych_nows _ Wch) as Hkn.
@@ -785,12 +781,21 @@ Section feature_lines.
         match goal with |- match ?X with _ => _ end = _ => replace X with (ROk sb) by (symmetry; exact Sc) end. exact Sq.
       + destruct Frq as (E & _). rewrite E. exact Hmo1.
       + eapply hframe_trans; [exact Hfr|]. eapply hframe_trans; [|apply fts_frame_h; exact Frq]. repeat split.
-      + destruct Frq as (_&_&_&_&_&_&Ef&Et&El).
-        assert (Hl : locs sc = Some (print (aloc f))) by (rewrite El; cbn; cbn [concat] in Hcat; now rewrite Hcat).
-        assert (Ht : fttype sc = Some (akey f)) by (rewrite Et; reflexivity).
-        rewrite (fold_view _ Wq Wdist) in Mq.
-        eexists. split; [apply (flush_pending sc _ _ _ Ht Hl Mq We Wone)|]. split; [|split; [reflexivity|apply hframe_set_ft]].
-        cbn [fts set_ft]. rewrite Ef. cbn. rewrite HF. reflexivity.
+      + destruct Frq as (_&_&_&_&_&_&Ef&Et&El). split; [rewrite Ef; reflexivity|]. split; [rewrite Et; reflexivity|].
+        split; [rewrite El; cbn; cbn [concat] in Hcat; now rewrite Hcat|exact Mq].
+  Qed.
+
+  Lemma feature_lines f s F : mode s = PFts -> pend_view s F -> wf_afeat f = true ->
+    Forall okline (render_feat f) /\ exists s2, steps_any excl s (render_feat f) = ROk s2 /\ mode s2 = PFts /\ hframe s s2
+      /\ pend_view s2 (F ++ [feat0 f]).
+  Proof.
+    intros Hmo (s1 & Hfl & HF & Hty & Hfr) W. unfold wf_afeat in W. apply andb_prop in W. destruct W as [W Wone].
+    destruct (feature_pre f s s1 Hmo Hfl Hty Hfr W) as (Fo & sc & Sc & Mc & Frc & Ef & Et & El & Mq).
+    split; [exact Fo|]. exists sc. split; [exact Sc|]. split; [exact Mc|]. split; [exact Frc|].
+    assert (We : wf_lexp (aloc f) = true).
+    { unfold wf_afeat_pre in W. apply andb_prop in W. destruct W as [W _]. apply andb_prop in W. destruct W as [_ W]. exact W. }
+    eexists. split; [apply (flush_pending sc _ _ _ Et El Mq We Wone)|]. split; [|split; [reflexivity|apply hframe_set_ft]].
+    cbn [fts set_ft]. rewrite Ef, HF. reflexivity.
   Qed.
 
   Lemma features_lines fs : forall s F, mode s = PFts -> pend_view s F -> forallb wf_afeat fs = true ->
@@ -878,39 +883,48 @@ Proof.
   intros W. destruct (wf_text_facts t W) as (H1 & H2 & (a & g & E & Hg & Hn) & H5).
   destruct (okline_body 12 t a g E Hg Hn H2 H5) as (O & S & _). split; [exact O|]. split; [exact S|]. split; reflexivity.
 Qed.
-Definition add_cont (x : str) (ts : list str) : str := fold_left (fun acc t => acc ++ sp :: t) ts x.
 
 Lemma hdr_cont_lines excl ts : forallb wf_text ts = true -> forall s k V sko, hstate s k V sko ->
   Forall okline (map (fun x => spaces 12 ++ x) ts) /\
   exists s' V', steps_any excl s (map (fun x => spaces 12 ++ x) ts) = ROk s' /\ hstate s' k V' sko
     /\ attrs s' = aset k V' (attrs s) /\ rest_frame s s'
-    /\ (forall x, sko = None -> V = HS x -> V' = HS (add_cont x ts)).
+    /\ (forall x, sko = None -> V = HS x -> V' = HS (add_cont x ts))
+    /\ (forall sk l x, sko = Some sk -> V = HA l -> aget sk l = Some (HS x) -> V' = HA (aset sk (HS (add_cont x ts)) l)).
 Proof.
   induction ts as [|t r IH]; cbn [forallb map]; intros W s k V sko Hs.
-  - split; [constructor|]. exists s, V. split; [reflexivity|]. split; [exact Hs|]. split; [|split; [apply rest_frame_refl|]].
+  - split; [constructor|]. exists s, V. split; [reflexivity|]. split; [exact Hs|]. split; [|split; [apply rest_frame_refl|split]].
     + destruct Hs as (_ & _ & Hg & _). clear - Hg. revert Hg. generalize (attrs s). intros m. induction m as [|[a w] m IH]; cbn; [discriminate|].
       destruct (str_eqb a k) eqn:E; [intros H; inversion H; reflexivity|]. intros H. now rewrite <- IH.
     + intros x _ E. exact E.
+    + intros sk l x _ E G. subst V. f_equal. cbn [add_cont fold_left]. symmetry. apply aset_same_val. exact G.
   - apply andb_prop in W. destruct W as [Wt Wr]. destruct (cont_line_facts t Wt) as (O & S & B1 & B2).
     destruct Hs as (Hmo & Hk & Hg & Hsk & Hsh).
     assert (exists s1 V1, step excl s (spaces 12 ++ t) = ROk s1 /\ hstate s1 k V1 sko /\ attrs s1 = aset k V1 (attrs s) /\ rest_frame s s1
-             /\ (forall x, sko = None -> V = HS x -> V1 = HS (x ++ sp :: t))) as (s1 & V1 & S1 & H1 & A1 & F1 & X1).
+             /\ (forall x, sko = None -> V = HS x -> V1 = HS (x ++ sp :: t))
+             /\ (forall sk l x, sko = Some sk -> V = HA l -> aget sk l = Some (HS x) -> V1 = HA (aset sk (HS (x ++ sp :: t)) l)))
+      as (s1 & V1 & S1 & H1 & A1 & F1 & X1 & Y1).
     { unfold step. rewrite Hmo. unfold step_header. rewrite B1. cbn [negb]. rewrite B2, Hk, Hg, Hsk, S.
       destruct sko as [sk|].
       - destruct Hsh as (Hne & l & x & EV & El). destruct sk as [|c sk']; [congruence|]. subst V. rewrite El.
-        eexists. eexists. split; [reflexivity|]. split; [|split; [reflexivity|split; [apply rest_frame_set|intros; discriminate]]].
-        split; [exact Hmo|]. split; [reflexivity|]. split; [apply aget_aset_same|]. split; [reflexivity|].
-        split; [discriminate|]. eexists. eexists. split; [reflexivity|apply aget_aset_same].
+        eexists. eexists. split; [reflexivity|]. split; [|split; [reflexivity|split; [apply rest_frame_set|split; [intros; discriminate|]]]].
+        + split; [exact Hmo|]. split; [reflexivity|]. split; [apply aget_aset_same|]. split; [reflexivity|].
+          split; [discriminate|]. eexists. eexists. split; [reflexivity|apply aget_aset_same].
+        + intros sk2 l2 x2 E1 E2 G. inversion E1; subst sk2. inversion E2; subst l2. rewrite El in G. inversion G; subst x2. reflexivity.
       - destruct Hsh as (x & EV). subst V.
-        eexists. eexists. split; [reflexivity|]. split; [|split; [reflexivity|split; [apply rest_frame_set|]]].
+        eexists. eexists. split; [reflexivity|]. split; [|split; [reflexivity|split; [apply rest_frame_set|split]]].
         + split; [exact Hmo|]. split; [reflexivity|]. split; [apply aget_aset_same|]. split; [reflexivity|]. eexists. reflexivity.
-        + intros x' _ E. inversion E. reflexivity. }
-    destruct (IH Wr s1 k V1 sko H1) as (F & s' & V' & S' & H' & A' & Fr' & X').
-    split; [constructor; assumption|]. exists s', V'. split; [|split; [exact H'|split; [|split]]].
+        + intros x' _ E. inversion E. reflexivity.
+        + intros; discriminate. }
+    destruct (IH Wr s1 k V1 sko H1) as (F & s' & V' & S' & H' & A' & Fr' & X' & Y').
+    split; [constructor; assumption|]. exists s', V'. split; [|split; [exact H'|split; [|split; [|split]]]].
     + cbn [steps_any]. rewrite S1. exact S'.
     + rewrite A', A1, aset_aset. reflexivity.
     + eapply rest_frame_trans; eassumption.
     + intros x E1 E2. cbn [add_cont fold_left]. apply (X' (x ++ sp :: t) E1). apply (X1 x E1 E2).
+    + intros sk l x E1 E2 G. cbn [add_cont fold_left]. rewrite (Y' sk (aset sk (HS (x ++ sp :: t)) l) (x ++ sp :: t) E1).
+      * now rewrite aset_aset.
+      * apply (Y1 sk l x E1 E2 G).
+      * apply aget_aset_same.
 Qed.
 
 Section name_line.
@@ -987,7 +1001,8 @@ Section header_fields.
     Forall okline (render_field_lines (pad_right 12 name) ls) /\
     exists s' x, steps_any excl s (render_field_lines (pad_right 12 name) ls) = ROk s' /\ hstate s' (lower name) (HS x) None
       /\ attrs s' = aset (lower name) (HS x) (attrs s) /\ rest_frame s s'
-      /\ (str_eqb (lower name) k_locus = false -> forall l r, ls = l :: r -> first_word x = first_word l /\ first_word l <> None).
+      /\ (str_eqb (lower name) k_locus = false -> forall l r, ls = l :: r -> first_word x = first_word l /\ first_word l <> None)
+      /\ x = match ls with [] => [] | l :: r => add_cont (if str_eqb (lower name) k_locus then join (bs ", "%bs) (split_ws l) else l) r end.
   Proof.
     intros Hn1 Hn2 Hn3 Hnf W Hmo. unfold pad_right.
     assert (Hlen : (0 + length name + (12 - length name) = 12)%nat) by lia.
@@ -998,13 +1013,16 @@ Section header_fields.
     destruct ls as [|l r].
     - destruct (line0_facts 0 (12 - length name) name Hn1 Hn2 Hlen Hm) as (O & K & V & R). cbn [spaces repeat app] in O, K, V, R.
       cbn [render_field_lines]. rewrite R. split; [constructor; [exact O|constructor]|].
-      eexists. eexists. split; [|split; [|split; [|split]]].
+      exists (set_hdr s (aset (lower name) (HS (if str_eqb (lower name) k_locus then join (bs ", "%bs) (split_ws []) else [])) (attrs s)) (Some (lower name)) None), [].
+      assert (E0 : (if str_eqb (lower name) k_locus then join (bs ", "%bs) (split_ws []) else []) = []) by (destruct (str_eqb (lower name) k_locus); reflexivity).
+      rewrite E0. split; [|split; [|split; [|split; [|split]]]].
       + cbn [steps_any]. unfold step. rewrite Hmo. unfold step_header.
-        rewrite <- (app_nil_r name) at 1. rewrite Hst. cbn [negb]. rewrite K, Hnf, V. reflexivity.
+        rewrite <- (app_nil_r name) at 1. rewrite Hst. cbn [negb]. rewrite K, Hnf, V, E0. reflexivity.
       + split; [exact Hmo|]. split; [reflexivity|]. split; [apply aget_aset_same|]. split; [reflexivity|]. eexists. reflexivity.
       + reflexivity.
       + apply rest_frame_set.
       + intros _ l r E. discriminate E.
+      + reflexivity.
     - cbn [forallb] in W. apply andb_prop in W. destruct W as [Wl Wr].
       destruct (line1_facts 0 (12 - length name) name Hn1 Hn2 Hlen Hm l Wl) as (O & K & V). cbn [spaces repeat app] in O, K, V.
       cbn [render_field_lines]. rewrite <- app_assoc.
@@ -1014,9 +1032,9 @@ Section header_fields.
       { unfold step. rewrite Hmo. unfold step_header. rewrite Hst. cbn [negb]. rewrite K, Hnf, V. reflexivity. }
       assert (H1 : hstate s1 (lower name) (HS v) None).
       { split; [exact Hmo|]. split; [reflexivity|]. split; [apply aget_aset_same|]. split; [reflexivity|]. eexists. reflexivity. }
-      destruct (hdr_cont_lines excl r Wr s1 _ _ _ H1) as (F & s' & V' & S' & H' & A' & Fr' & X').
+      destruct (hdr_cont_lines excl r Wr s1 _ _ _ H1) as (F & s' & V' & S' & H' & A' & Fr' & X' & _).
       specialize (X' v eq_refl eq_refl). subst V'.
-      split; [constructor; assumption|]. exists s', (add_cont v r). split; [|split; [exact H'|split; [|split]]].
+      split; [constructor; assumption|]. exists s', (add_cont v r). split; [|split; [exact H'|split; [|split; [|split; [|reflexivity]]]]].
       + cbn [steps_any]. rewrite S1. exact S'.
       + rewrite A'. unfold s1. cbn [attrs set_hdr]. apply aset_aset.
       + eapply rest_frame_trans; [apply rest_frame_set|exact Fr'].
@@ -1030,7 +1048,7 @@ Section header_fields.
     forallb wf_text ls = true -> hstate s k V sko ->
     Forall okline (render_field_lines (spaces 2 ++ pad_right 10 name) ls) /\
     exists s' V', steps_any excl s (render_field_lines (spaces 2 ++ pad_right 10 name) ls) = ROk s'
-      /\ hstate s' k V' (Some (lower name)) /\ attrs s' = aset k V' (attrs s) /\ rest_frame s s'.
+      /\ hstate s' k V' (Some (lower name)) /\ attrs s' = aset k V' (attrs s) /\ rest_frame s s' /\ V' = sub_val V (name, ls).
   Proof.
     intros Hn1 Hn2 Hn3 W (Hmo & Hk & Hg & Hsk & Hsh). unfold pad_right.
     assert (Hlen : (2 + length name + (10 - length name) = 12)%nat) by lia.
@@ -1040,27 +1058,30 @@ Section header_fields.
     { intros t. destruct name as [|c r]; [congruence|]. cbn in *. now rewrite Hsp. }
     assert (Hstep : forall X v, startswith [sp] X = true -> startswith (spaces 12) X = false ->
               strip (lower (firstn 12 X)) = lower name -> value_of X = v ->
-              exists s1 V1, step excl s X = ROk s1 /\ hstate s1 k V1 (Some (lower name)) /\ attrs s1 = aset k V1 (attrs s) /\ rest_frame s s1).
+              exists s1, step excl s X = ROk s1 /\ hstate s1 k (HA (aset (lower name) (HS v) [(k_id, V)])) (Some (lower name))
+                /\ attrs s1 = aset k (HA (aset (lower name) (HS v) [(k_id, V)])) (attrs s) /\ rest_frame s s1).
     { intros X v B1 B2 K Vv. unfold step. rewrite Hmo. unfold step_header. rewrite B1. cbn [negb]. rewrite B2, K, Vv, Hk, Hg.
-      eexists. eexists. split; [reflexivity|]. split; [|split; [reflexivity|apply rest_frame_set]].
+      eexists. split; [reflexivity|]. split; [|split; [reflexivity|apply rest_frame_set]].
       split; [exact Hmo|]. split; [reflexivity|]. split; [apply aget_aset_same|]. split; [reflexivity|].
       split; [exact Hlne|]. eexists. eexists. split; [reflexivity|apply aget_aset_same]. }
     destruct ls as [|l r].
     - destruct (line0_facts 2 (10 - length name) name Hn1 Hn2 Hlen Hm) as (O & K & Vv & R).
       cbn [render_field_lines]. rewrite R. split; [constructor; [exact O|constructor]|].
       destruct (Hst []) as [B1 B2]. rewrite app_nil_r in B1, B2.
-      destruct (Hstep _ _ B1 B2 K Vv) as (s1 & V1 & S1 & H1 & A1 & F1).
-      exists s1, V1. split; [cbn [steps_any]; now rewrite S1|]. split; [exact H1|split; assumption].
+      destruct (Hstep _ _ B1 B2 K Vv) as (s1 & S1 & H1 & A1 & F1).
+      exists s1. eexists. split; [cbn [steps_any]; now rewrite S1|]. split; [exact H1|split; [exact A1|split; [exact F1|reflexivity]]].
     - cbn [forallb] in W. apply andb_prop in W. destruct W as [Wl Wr].
       destruct (line1_facts 2 (10 - length name) name Hn1 Hn2 Hlen Hm l Wl) as (O & K & Vv).
       cbn [render_field_lines]. rewrite <- !app_assoc.
       destruct (Hst (spaces (10 - length name) ++ l)) as [B1 B2].
-      destruct (Hstep _ _ B1 B2 K Vv) as (s1 & V1 & S1 & H1 & A1 & F1).
-      destruct (hdr_cont_lines excl r Wr s1 _ _ _ H1) as (F & s' & V' & S' & H' & A' & Fr' & _).
-      split; [constructor; assumption|]. exists s', V'. split; [|split; [exact H'|split]].
+      destruct (Hstep _ _ B1 B2 K Vv) as (s1 & S1 & H1 & A1 & F1).
+      destruct (hdr_cont_lines excl r Wr s1 _ _ _ H1) as (F & s' & V' & S' & H' & A' & Fr' & _ & Y').
+      specialize (Y' (lower name) _ l eq_refl eq_refl (aget_aset_same _ _ _)). rewrite aset_aset in Y'.
+      split; [constructor; assumption|]. exists s', V'. split; [|split; [exact H'|split; [|split]]].
       + cbn [steps_any]. rewrite S1. exact S'.
       + rewrite A', A1. apply aset_aset.
       + eapply rest_frame_trans; eassumption.
+      + exact Y'.
   Qed.
 End header_fields.
 
@@ -1078,22 +1099,23 @@ Section header_all.
   Lemma subs_lines subs : forallb wf_sub subs = true -> forall s k V sko, hstate s k V sko ->
     Forall okline (flat_map (fun p => render_field_lines (spaces 2 ++ pad_right 10 (fst p)) (snd p)) subs) /\
     exists s' V' sko', steps_any excl s (flat_map (fun p => render_field_lines (spaces 2 ++ pad_right 10 (fst p)) (snd p)) subs) = ROk s'
-      /\ hstate s' k V' sko' /\ attrs s' = aset k V' (attrs s) /\ rest_frame s s'.
+      /\ hstate s' k V' sko' /\ attrs s' = aset k V' (attrs s) /\ rest_frame s s' /\ V' = fold_left sub_val subs V.
   Proof.
     induction subs as [|[nm ls] r IH]; cbn [forallb flat_map]; intros W s k V sko Hs.
-    - split; [constructor|]. exists s, V, sko. split; [reflexivity|]. split; [exact Hs|]. split; [|apply rest_frame_refl].
+    - split; [constructor|]. exists s, V, sko. split; [reflexivity|]. split; [exact Hs|]. split; [|split; [apply rest_frame_refl|reflexivity]].
       destruct Hs as (_ & _ & Hg & _). clear - Hg. revert Hg. generalize (attrs s). intros m. induction m as [|[a w] m IH]; cbn; [discriminate|].
       destruct (str_eqb a k) eqn:E; [intros H; inversion H; reflexivity|]. intros H. now rewrite <- IH.
     - apply andb_prop in W. destruct W as [Wp Wr]. unfold wf_sub in Wp. cbn [fst snd] in Wp.
       apply andb_prop in Wp. destruct Wp as [Wp W5]. apply andb_prop in Wp. destruct Wp as [Wp _].
       apply andb_prop in Wp. destruct Wp as [Wp W3]. apply andb_prop in Wp. destruct Wp as [W1 W2].
       apply nonempty_ne in W1. apply Nat.leb_le in W3. cbn [fst snd].
-      destruct (sub_field_lines excl nm ls s k V sko W1 W2 W3 W5 Hs) as (F1 & s1 & V1 & S1 & H1 & A1 & Fr1).
-      destruct (IH Wr s1 k V1 _ H1) as (F2 & s2 & V2 & sko2 & S2 & H2 & A2 & Fr2).
-      split; [apply Forall_app; split; assumption|]. exists s2, V2, sko2. split; [|split; [exact H2|split]].
+      destruct (sub_field_lines excl nm ls s k V sko W1 W2 W3 W5 Hs) as (F1 & s1 & V1 & S1 & H1 & A1 & Fr1 & E1).
+      destruct (IH Wr s1 k V1 _ H1) as (F2 & s2 & V2 & sko2 & S2 & H2 & A2 & Fr2 & E2).
+      split; [apply Forall_app; split; assumption|]. exists s2, V2, sko2. split; [|split; [exact H2|split; [|split]]].
       + rewrite steps_any_app, S1. exact S2.
       + rewrite A2, A1. apply aset_aset.
       + eapply rest_frame_trans; eassumption.
+      + cbn [fold_left]. rewrite E2, E1. reflexivity.
   Qed.
 
   Lemma lower_accession k : forallb is_upper k = true -> str_eqb k k_ACCESSION = false -> str_eqb (lower k) k_accession = false.
@@ -1105,20 +1127,24 @@ Section header_all.
 
   Lemma field_lines h s o : wf_hfield h = true -> mode s = PHeader -> acc_ok (attrs s) o ->
     Forall okline (render_hfield h) /\
-    exists s', steps_any excl s (render_hfield h) = ROk s' /\ mode s' = PHeader /\ rest_frame s s' /\ acc_ok (attrs s') (acc_step o h).
+    exists s', steps_any excl s (render_hfield h) = ROk s' /\ mode s' = PHeader /\ rest_frame s s' /\ acc_ok (attrs s') (acc_step o h)
+      /\ attrs s' = hdr_step (attrs s) h.
   Proof.
     intros W Hmo Ha. unfold wf_hfield in W.
     apply andb_prop in W. destruct W as [W W8]. apply andb_prop in W. destruct W as [W W7]. apply andb_prop in W. destruct W as [W W6].
     apply andb_prop in W. destruct W as [W _]. apply andb_prop in W. destruct W as [W W4]. apply andb_prop in W. destruct W as [W W3].
     apply andb_prop in W. destruct W as [W1 W2]. apply nonempty_ne in W1. apply Nat.leb_le in W3. apply negb_true_iff in W4.
     unfold render_hfield.
-    destruct (key_field_lines excl (hk h) (hlines h) s W1 W2 W3 W4 W6 Hmo) as (F1 & s1 & x & S1 & H1 & A1 & Fr1 & X1).
-    destruct (subs_lines (hsubs h) W7 s1 _ _ _ H1) as (F2 & s2 & V2 & sko2 & S2 & H2 & A2 & Fr2).
-    split; [apply Forall_app; split; assumption|]. exists s2. split; [|split; [|split]].
+    destruct (key_field_lines excl (hk h) (hlines h) s W1 W2 W3 W4 W6 Hmo) as (F1 & s1 & x & S1 & H1 & A1 & Fr1 & X1 & Ex).
+    destruct (subs_lines (hsubs h) W7 s1 _ _ _ H1) as (F2 & s2 & V2 & sko2 & S2 & H2 & A2 & Fr2 & EV).
+    split; [apply Forall_app; split; assumption|]. exists s2. split; [|split; [|split; [|split]]].
     - rewrite steps_any_app, S1. exact S2.
     - destruct H2 as (E & _). exact E.
     - eapply rest_frame_trans; eassumption.
-    - rewrite A2, A1, aset_aset. unfold acc_step. destruct (str_eqb (hk h) k_ACCESSION) eqn:E.
+    - shelve.
+    - rewrite A2, A1, aset_aset. unfold hdr_step, field_val, main_val. rewrite EV, Ex. reflexivity.
+    Unshelve.
+      rewrite A2, A1, aset_aset. unfold acc_step. destruct (str_eqb (hk h) k_ACCESSION) eqn:E.
       + apply str_eqb_eq in E. apply andb_prop in W8. destruct W8 as [W81 W82]. apply negb_true_iff in W82.
         destruct (hsubs h) as [|p r] eqn:Eh; [|discriminate W82].
         destruct (hlines h) as [|l r] eqn:El; [discriminate W81|].
@@ -1136,16 +1162,17 @@ Section header_all.
   Lemma fields_lines hs : forallb wf_hfield hs = true -> forall s o, mode s = PHeader -> acc_ok (attrs s) o ->
     Forall okline (flat_map render_hfield hs) /\
     exists s', steps_any excl s (flat_map render_hfield hs) = ROk s' /\ mode s' = PHeader /\ rest_frame s s'
-      /\ acc_ok (attrs s') (fold_left acc_step hs o).
+      /\ acc_ok (attrs s') (fold_left acc_step hs o) /\ attrs s' = fold_left hdr_step hs (attrs s).
   Proof.
     induction hs as [|h r IH]; cbn [forallb flat_map fold_left]; intros W s o Hmo Ha.
-    - split; [constructor|]. exists s. split; [reflexivity|]. split; [exact Hmo|]. split; [apply rest_frame_refl|exact Ha].
+    - split; [constructor|]. exists s. split; [reflexivity|]. split; [exact Hmo|]. split; [apply rest_frame_refl|split; [exact Ha|reflexivity]].
     - apply andb_prop in W. destruct W as [Wh Wr].
-      destruct (field_lines h s o Wh Hmo Ha) as (F1 & s1 & S1 & M1 & Fr1 & A1).
-      destruct (IH Wr s1 _ M1 A1) as (F2 & s2 & S2 & M2 & Fr2 & A2).
-      split; [apply Forall_app; split; assumption|]. exists s2. split; [|split; [exact M2|split; [|exact A2]]].
+      destruct (field_lines h s o Wh Hmo Ha) as (F1 & s1 & S1 & M1 & Fr1 & A1 & E1).
+      destruct (IH Wr s1 _ M1 A1) as (F2 & s2 & S2 & M2 & Fr2 & A2 & E2).
+      split; [apply Forall_app; split; assumption|]. exists s2. split; [|split; [exact M2|split; [|split; [exact A2|]]]].
       + rewrite steps_any_app, S1. exact S2.
       + eapply rest_frame_trans; eassumption.
+      + rewrite E2, E1. reflexivity.
   Qed.
 End header_all.
 
@@ -1184,9 +1211,9 @@ Proof.
 Qed.
 Lemma render_feat_skipped f : wf_afeat f = true -> Forall skipped (render_feat f).
 Proof.
-  intros W. unfold wf_afeat in W.
+  intros W. unfold wf_afeat, wf_afeat_pre in W.
   apply andb_prop in W. destruct W as [W _]. apply andb_prop in W. destruct W as [W _].
-  apply andb_prop in W. destruct W as [W _]. apply andb_prop in W. destruct W as [W _].
+  apply andb_prop in W. destruct W as [W _].
   apply andb_prop in W. destruct W as [W Wor]. apply andb_prop in W. destruct W as [W Wlen].
   apply andb_prop in W. destruct W as [Wne Wch].
   apply nonempty_ne in Wne. apply Nat.leb_le in Wlen. apply negb_true_iff in Wor. pose proof (keych_nows _ Wch) as Hkn.
@@ -1215,85 +1242,107 @@ Proof.
 Qed.
 
 Definition rec_pre (r : arec) : list str :=
-  flat_map render_hfield (ahdr r) ++ [feat_header] ++ flat_map render_feat (afts r) ++ [origin_line] ++ render_origin (aseq r).
+  flat_map render_hfield (ahdr r) ++ [feat_header] ++ flat_map render_feat (afts r)
+  ++ (if aorigin r then [origin_line] ++ render_origin (aseq r) else []).
 
 Lemma finish_view excl r s5 :
-  fttype s5 = None -> acc_ok (attrs s5) (view_id r) ->
-  seq s5 = (if mem k_seq excl then [] else aseq r) ->
-  mfts s5 = (if mem k_fts excl then None else Some (map feat0 (afts r))) ->
+  fttype s5 = None -> acc_ok (attrs s5) (view_id r) -> attrs s5 = view_hdr (ahdr r) ->
+  seq s5 = (if mem k_seq excl || negb (aorigin r) then [] else aseq r) ->
+  mfts s5 = (if mem k_fts excl || negb (aorigin r) then None else Some (map feat0 (afts r))) ->
   finish excl s5 = ROk (view_rec excl r).
 Proof.
-  intros Ht Ha Hs Hm. unfold finish, view_rec. rewrite Ht, Hs, Hm.
-  assert (U : upper (upper (if mem k_seq excl then [] else aseq r)) = (if mem k_seq excl then [] else upper (aseq r))).
-  { destruct (mem k_seq excl); [reflexivity|apply upper_idem]. }
+  intros Ht Ha Hh Hs Hm. unfold finish, view_rec. rewrite Ht, Hs, Hm, <- Hh.
+  assert (U : upper (upper (if mem k_seq excl || negb (aorigin r) then [] else aseq r))
+              = (if mem k_seq excl || negb (aorigin r) then [] else upper (aseq r))).
+  { destruct (mem k_seq excl || negb (aorigin r)); [reflexivity|apply upper_idem]. }
   rewrite U. unfold acc_ok in Ha. unfold view_feat. destruct (view_id r) as [w|].
-  - destruct Ha as (v & G & Fw). rewrite G, Fw. destruct (mem k_fts excl); [destruct (mem k_translation excl); reflexivity|].
+  - destruct Ha as (v & G & Fw). rewrite G, Fw. destruct (mem k_fts excl || negb (aorigin r)); [destruct (mem k_translation excl); reflexivity|].
     destruct (mem k_translation excl); cbn [option_map]; rewrite ?map_map; reflexivity.
-  - rewrite Ha. destruct (mem k_fts excl); [destruct (mem k_translation excl); reflexivity|].
+  - rewrite Ha. destruct (mem k_fts excl || negb (aorigin r)); [destruct (mem k_translation excl); reflexivity|].
     destruct (mem k_translation excl); cbn [option_map]; rewrite ?map_map; reflexivity.
 Qed.
 
-Lemma record_steps excl r k2 : wf_arec r = true ->
-  Forall okline (rec_pre r) /\ exists s5, steps_any excl (st0 k2) (rec_pre r) = ROk s5 /\ finish excl s5 = ROk (view_rec excl r).
+(* header and feature-table lines of a record, up to the point where the ORIGIN line or '//' comes *)
+Lemma table_steps excl r k2 : forallb wf_hfield (ahdr r) = true -> forallb wf_afeat (afts r) = true ->
+  Forall okline (flat_map render_hfield (ahdr r) ++ [feat_header] ++ flat_map render_feat (afts r)) /\
+  exists s2, steps_any excl (st0 k2) (flat_map render_hfield (ahdr r) ++ [feat_header] ++ flat_map render_feat (afts r)) = ROk s2
+    /\ mode s2 = PFts /\ acc_ok (attrs s2) (view_id r) /\ attrs s2 = view_hdr (ahdr r) /\ seq s2 = [] /\ mfts s2 = None
+    /\ (if mem k_fts excl then fttype s2 = None else pend_view s2 (map feat0 (afts r))).
 Proof.
-  intros W. unfold wf_arec in W.
-  apply andb_prop in W. destruct W as [W Wpos]. apply andb_prop in W. destruct W as [W Wseq].
-  apply andb_prop in W. destruct W as [W Wfts]. apply andb_prop in W. destruct W as [Whdr _].
-  destruct (fields_lines excl (ahdr r) Whdr (st0 k2) None eq_refl eq_refl) as (F1 & sh & S1 & M1 & Fr1 & A1).
+  intros Whdr Wfts.
+  destruct (fields_lines excl (ahdr r) Whdr (st0 k2) None eq_refl eq_refl) as (F1 & sh & S1 & M1 & Fr1 & A1 & E1).
   destruct Fr1 as (_ & R2 & R3 & R4 & R5 & R6 & R7 & R8). cbn in R2, R3, R4, R5, R6, R7, R8.
   set (sf := set_hdr (set_mode sh PFts) (attrs sh) None None).
   destruct okline_concrete as [Ofh Ool].
   pose proof (features_oklines (afts r) Wfts) as F2.
-  unfold rec_pre.
+  split. { apply Forall_app. split; [exact F1|]. constructor; [exact Ofh|]. exact F2. }
   destruct (mem k_fts excl) eqn:He.
-  - (* feature table skipped *)
-    assert (S2 : steps_any excl sf (flat_map render_feat (afts r)) = ROk sf).
+  - assert (S2 : steps_any excl sf (flat_map render_feat (afts r)) = ROk sf).
     { apply steps_skipped; [reflexivity|exact He|]. apply Forall_forall. intros l Hin. apply in_flat_map in Hin.
       destruct Hin as (f & Hf & Hl). rewrite forallb_forall in Wfts. pose proof (render_feat_skipped f (Wfts f Hf)) as Q.
       rewrite Forall_forall in Q. apply Q. exact Hl. }
-    set (so := set_mode sf POrigin).
-    destruct (origin_render excl so (aseq r) Wseq Wpos eq_refl R7) as [F4 S4].
-    split.
-    { apply Forall_app. split; [exact F1|]. constructor; [exact Ofh|]. apply Forall_app. split; [exact F2|]. constructor; assumption. }
-    eexists. split.
-    + rewrite steps_any_app, S1. cbn [app steps_any]. rewrite step_feat_header by exact M1. fold sf.
-      rewrite steps_any_app, S2. cbn [app steps_any]. rewrite step_origin_line_excl by (reflexivity || exact He). fold so. exact S4.
-    + apply finish_view.
-      * exact R3.
-      * exact A1.
-      * reflexivity.
-      * rewrite He. exact R8.
+    exists sf. split; [|repeat split; try assumption; reflexivity].
+    rewrite steps_any_app, S1. cbn [app steps_any]. rewrite step_feat_header by exact M1. fold sf. exact S2.
   - assert (P0 : pend_view sf []) by (exists sf; split; [apply flush_none; exact R3|]; split; [exact R2|]; split; [exact R3|apply hframe_refl]).
-    destruct (features_lines excl He (afts r) sf [] eq_refl P0 Wfts) as (_ & s2 & S2 & M2 & Fr2 & (s3 & Fl & HF & Ht & Hfr3)).
-    destruct Fr2 as (_ & B2 & _ & _ & B5 & _). destruct Hfr3 as (_ & C2 & _ & _ & C5 & _). cbn in B2, B5.
-    set (so := mkst POrigin (attrs s3) (Some origin_line) (subkey s3) (fts s3) (fttype s3) (ftmeta s3) (key2 s3) (locs s3) (seq s3) (Some (fts s3))).
-    assert (Hseq : seq so = []) by (cbn; congruence).
-    destruct (origin_render excl so (aseq r) Wseq Wpos eq_refl Hseq) as [F4 S4].
-    split.
-    { apply Forall_app. split; [exact F1|]. constructor; [exact Ofh|]. apply Forall_app. split; [exact F2|]. constructor; assumption. }
-    eexists. split.
-    + rewrite steps_any_app, S1. cbn [app steps_any]. rewrite step_feat_header by exact M1. fold sf.
-      rewrite steps_any_app, S2. cbn [app steps_any]. rewrite (step_origin_line excl s2 s3 M2 He Fl). fold so. exact S4.
-    + apply finish_view.
-      * exact Ht.
-      * cbn [attrs set_seq so]. rewrite C2, B2. exact A1.
-      * reflexivity.
-      * rewrite He. cbn [mfts set_seq so]. rewrite HF. reflexivity.
+    destruct (features_lines excl He (afts r) sf [] eq_refl P0 Wfts) as (_ & s2 & S2 & M2 & Fr2 & P2).
+    destruct Fr2 as (_ & B2 & _ & _ & B5 & B6). cbn in B2, B5, B6.
+    exists s2. split; [|split; [exact M2|split; [rewrite B2; exact A1|split; [rewrite B2; exact E1|split; [congruence|split; [congruence|exact P2]]]]]].
+    rewrite steps_any_app, S1. cbn [app steps_any]. rewrite step_feat_header by exact M1. fold sf. exact S2.
 Qed.
 
-Lemma record_lines excl r rest k2 acc : wf_arec r = true ->
+Lemma record_steps excl r k2 : wf_arec excl r = true ->
+  Forall okline (rec_pre r) /\ exists s5, steps_any excl (st0 k2) (rec_pre r) = ROk s5 /\ finish excl s5 = ROk (view_rec excl r).
+Proof.
+  intros W. unfold wf_arec in W.
+  apply andb_prop in W. destruct W as [W Wor]. apply andb_prop in W. destruct W as [W Wpos]. apply andb_prop in W. destruct W as [W Wseq].
+  apply andb_prop in W. destruct W as [W Wfts]. apply andb_prop in W. destruct W as [Whdr _].
+  destruct (table_steps excl r k2 Whdr Wfts) as (F & s2 & S2 & M2 & A2 & E2 & Q2 & N2 & P2).
+  destruct okline_concrete as [Ofh Ool].
+  unfold rec_pre. rewrite !app_assoc. rewrite <- (app_assoc _ [feat_header]).
+  destruct (aorigin r) eqn:Eo.
+  - destruct (mem k_fts excl) eqn:He.
+    + set (so := set_mode s2 POrigin).
+      destruct (origin_render excl so (aseq r) Wseq Wpos eq_refl Q2) as [F4 S4].
+      split. { apply Forall_app. split; [exact F|]. constructor; assumption. }
+      eexists. split.
+      * rewrite steps_any_app, S2. cbn [app steps_any]. rewrite step_origin_line_excl by (exact M2 || exact He). fold so. exact S4.
+      * apply finish_view; try rewrite He; try rewrite Eo; cbn [orb negb]; rewrite ?orb_false_r; try assumption; try reflexivity.
+    + destruct P2 as (s3 & Fl & HF & Ht & Hfr3). destruct Hfr3 as (_ & C2 & _ & _ & C5 & _).
+      set (so := mkst POrigin (attrs s3) (Some origin_line) (subkey s3) (fts s3) (fttype s3) (ftmeta s3) (key2 s3) (locs s3) (seq s3) (Some (fts s3))).
+      assert (Hseq : seq so = []) by (cbn; congruence).
+      destruct (origin_render excl so (aseq r) Wseq Wpos eq_refl Hseq) as [F4 S4].
+      split. { apply Forall_app. split; [exact F|]. constructor; assumption. }
+      eexists. split.
+      * rewrite steps_any_app, S2. cbn [app steps_any]. rewrite (step_origin_line excl s2 s3 M2 He Fl). fold so. exact S4.
+      * apply finish_view; try rewrite He; try rewrite Eo; cbn [orb negb]; rewrite ?orb_false_r.
+        -- exact Ht.
+        -- cbn [attrs set_seq so]. rewrite C2. exact A2.
+        -- cbn [attrs set_seq so]. rewrite C2. exact E2.
+        -- reflexivity.
+        -- cbn [mfts set_seq so]. rewrite HF. reflexivity.
+  - rewrite app_nil_r. split; [exact F|]. exists s2. split; [exact S2|].
+    cbn [orb] in Wor.
+    apply finish_view; try rewrite Eo; rewrite ?orb_true_r; try assumption.
+    destruct (mem k_fts excl) eqn:He; [exact P2|]. cbn [orb] in Wor.
+    destruct (afts r); [|discriminate Wor]. destruct P2 as (s3 & Fl & HF & Ht & _).
+    unfold flush in Fl. destruct (fttype s2); [|reflexivity]. exfalso.
+    destruct (locs s2); [|discriminate Fl]. destruct (parse_locs_str s0); [|discriminate Fl]. destruct (mk_loctuple a); [|discriminate Fl].
+    inversion Fl; subst s3. cbn in HF. destruct (fts s2); discriminate HF.
+Qed.
+
+Lemma record_lines excl r rest k2 acc : wf_arec excl r = true ->
   exists k2', run_lines excl (render_rec r ++ rest) (st0 k2) acc = run_lines excl rest (st0 k2') (view_rec excl r :: acc).
 Proof.
   intros W. destruct (record_steps excl r k2 W) as (F & s5 & S & Fi). exists (key2 s5).
-  unfold render_rec. fold (rec_pre r).
-  replace (flat_map render_hfield (ahdr r) ++ [feat_header] ++ flat_map render_feat (afts r) ++ [origin_line] ++ render_origin (aseq r) ++ [sl2] ++ (if ablank r then [[]] else []))
+  unfold render_rec.
+  replace (flat_map render_hfield (ahdr r) ++ [feat_header] ++ flat_map render_feat (afts r) ++ (if aorigin r then [origin_line] ++ render_origin (aseq r) else []) ++ [sl2] ++ (if ablank r then [[]] else []))
     with (rec_pre r ++ [sl2] ++ (if ablank r then [[]] else [])) by (unfold rec_pre; rewrite <- !app_assoc; reflexivity).
   rewrite <- app_assoc. rewrite run_lines_steps by exact F. rewrite S.
   cbn [app]. cbn [run_lines]. change (is_blank (rstrip sl2)) with false. change (str_eqb (strip (rstrip sl2)) sl2) with true. cbv iota.
   rewrite Fi. destruct (ablank r); reflexivity.
 Qed.
 
-Lemma records_lines excl rs : forallb wf_arec rs = true -> forall k2 acc,
+Lemma records_lines excl rs : forallb (wf_arec excl) rs = true -> forall k2 acc,
   run_lines excl (flat_map render_rec rs ++ [[]]) (st0 k2) acc = ROk (rev acc ++ view excl rs).
 Proof.
   induction rs as [|r rs IH]; cbn [forallb flat_map]; intros W k2 acc.
@@ -1317,11 +1366,11 @@ Proof.
   intros W. unfold wf_C10 in W. apply andb_prop in W. destruct W as [W Wnl]. apply andb_prop in W. destruct W as [_ Wr].
   unfold iter_genbank, render_gb. rewrite (file_lines_render _ Wnl). apply (records_lines excl rs Wr None []).
 Qed.
-Lemma wf_C10_excl excl excl' rs : wf_C10 excl rs = wf_C10 excl' rs.
+Lemma wf_C10_excl excl rs : wf_C10 (k_seq :: excl) rs = wf_C10 excl rs.
 Proof. reflexivity. Qed.
 Lemma read_render_fts excl rs : wf_C10 excl rs = true -> read_fts_genbank excl (render_gb rs) = ROk (view_fts excl rs).
 Proof.
-  intros W. unfold read_fts_genbank. rewrite (read_render_iter (k_seq :: excl) rs W). unfold view_fts.
+  intros W. rewrite <- wf_C10_excl in W. unfold read_fts_genbank. rewrite (read_render_iter (k_seq :: excl) rs W). unfold view_fts.
   generalize (view (k_seq :: excl) rs). intros l. induction l as [|r l IH]; [reflexivity|].
   cbn [flat_map]. destruct (rfts r) as [fl|].
   - rewrite IH. reflexivity.
@@ -1342,24 +1391,37 @@ Lemma exclude_exact excl r :
   mkrec (rid (view_rec [] r))
         (if mem k_seq excl then [] else rseq (view_rec [] r))
         (if mem k_fts excl then None
-         else option_map (map (fun f => if mem k_translation excl then del_translation f else f)) (rfts (view_rec [] r))).
+         else option_map (map (fun f => if mem k_translation excl then del_translation f else f)) (rfts (view_rec [] r)))
+        (rhdr (view_rec [] r)).
 Proof.
-  unfold view_rec. cbn [rid rseq rfts mem existsb]. f_equal. destruct (mem k_fts excl); [reflexivity|]. cbn [option_map]. f_equal.
-  rewrite map_map. apply map_ext. intros f. unfold view_feat. cbn [mem existsb]. destruct (mem k_translation excl); reflexivity.
+  unfold view_rec. cbn [rid rseq rfts rhdr mem existsb orb]. f_equal.
+  - destruct (mem k_seq excl), (aorigin r); reflexivity.
+  - destruct (mem k_fts excl); [reflexivity|]. cbn [orb]. destruct (aorigin r); [|reflexivity]. cbn [negb option_map]. f_equal.
+    rewrite map_map. apply map_ext. intros f. unfold view_feat. cbn [mem existsb]. destruct (mem k_translation excl); reflexivity.
+Qed.
+(* names other than 'seq', 'fts', 'translation' in the exclude tuple have no effect *)
+Lemma exclude_unknown excl r :
+  mem k_seq excl = false -> mem k_fts excl = false -> mem k_translation excl = false -> view_rec excl r = view_rec [] r.
+Proof.
+  intros H1 H2 H3. rewrite exclude_exact, H1, H2, H3. destruct (view_rec [] r) as [a b [c|] d]; cbn; [|reflexivity].
+  f_equal. f_equal. apply map_id.
 Qed.
 Lemma view_spec excl rs :
   length (view excl rs) = length rs
   /\ Forall2 (fun r v =>
        rid v = match view_id r with Some i => i | None => [] end
-       /\ (mem k_seq excl = false -> rseq v = upper (aseq r))
-       /\ (mem k_fts excl = false ->
+       /\ rhdr v = adel k_reference (view_hdr (ahdr r))
+       /\ (mem k_seq excl = false -> aorigin r = true -> rseq v = upper (aseq r))
+       /\ (aorigin r = false -> rseq v = [] /\ rfts v = None)
+       /\ (mem k_fts excl = false -> aorigin r = true ->
            exists fl, rfts v = Some fl /\
              Forall2 (fun f g => ftype g = akey f /\ flocs g = sort_locs (sem (aloc f)) /\ fseqid g = view_id r
-                        /\ (mem k_translation excl = false -> fquals g = view_quals (aquals f) (flag_names (aquals f)) false)) (afts r) fl))
+                        /\ (mem k_translation excl = false -> fquals g = quals_dict (aquals f))) (afts r) fl))
      rs (view excl rs).
 Proof.
   split; [apply map_length|]. unfold view. induction rs as [|r rs IH]; [constructor|]. cbn [map]. constructor; [|exact IH].
-  unfold view_rec. cbn [rid rseq rfts]. split; [reflexivity|]. split; [intros ->; reflexivity|]. intros ->.
+  unfold view_rec. cbn [rid rseq rfts rhdr]. split; [reflexivity|]. split; [reflexivity|]. split; [intros -> ->; reflexivity|].
+  split; [intros ->; rewrite !orb_true_r; split; reflexivity|]. intros -> ->.
   eexists. split; [reflexivity|]. induction (afts r) as [|f fs IHf]; [constructor|]. cbn [map]. constructor; [|exact IHf].
   unfold view_feat. cbn. repeat split. intros ->. reflexivity.
 Qed.
